@@ -45,6 +45,12 @@ def nearTie (a : Int) (d : Nat) : Bool :=
 def anyNearTie (rs : List Ratio) (p : Prof) : Bool :=
   p.any (fun s => (List.zipWith (fun (r : Ratio) x => !r.isOne && nearTie (x * r.num) r.den) rs s.2).any id)
 
+/-- does `-normalize` of this case round a value that is within 2^-10 of a tie? -/
+def fetchTie (nz : Bool) (s b : List TProf) : Bool :=
+  nz && match combineT s, combineT b with
+  | .ok p, .ok pb => anyNearTie (normRatios p.cols.length p.samples pb.samples) p.samples
+  | _, _ => false
+
 def mode? : Nat → Option Mode
   | 0 => some .plain
   | 1 => some .base
@@ -60,6 +66,28 @@ def ops : List (String × (List String → String)) := [
     match Rd.run (do let n ← Rd.nat; let rs ← Rd.list R.ratio; let p ← R.prof; pure (n, rs, p)) ts with
     | none => "bad-op"
     | some (n, rs, p) => out W.prof (scaleNPinned rs n p)),
+  ("c07.normalize-pinned", fun ts =>
+    match Rd.run (do let n ← Rd.nat; let p ← R.prof; let pb ← R.prof; pure (n, p, pb)) ts with
+    | none => "bad-op"
+    | some (n, p, pb) =>
+      if !(wfB n p && wfB n pb) then "bad-op" else out W.prof (normalizePinned n p pb)),
+  ("c07.scaleprofiles-pinned", fun ts =>
+    match Rd.run (Rd.list R.tprof) ts with
+    | none => "bad-op"
+    | some ps => out (Wr.list W.tprof) (scaleProfilesWith scaleNPinned ps)),
+  ("c07.fetch-pinned", fun ts =>
+    match Rd.run (do let m ← Rd.nat; let nz ← Rd.bool; let s ← Rd.list R.tprof; let b ← Rd.list R.tprof
+                     pure (m, nz, s, b)) ts with
+    | none => "bad-op"
+    | some (m, nz, s, b) =>
+      match mode? m with
+      | none => "bad-op"
+      | some md =>
+        if !((s ++ b).all (fun p => wfB p.cols.length p.samples)) then "bad-op" else
+        match fetchPinned md nz s b with
+        | .ok r => "ok " ++ Wr.render (W.tprof r ++ Wr.bool (fetchTie nz s b))
+        | .err _ => "err"
+        | .panic _ => "panic"),
   ("c07.scaleneg", fun ts =>
     match Rd.run R.prof ts with
     | none => "bad-op"
@@ -90,7 +118,10 @@ def ops : List (String × (List String → String)) := [
       | none => "bad-op"
       | some md =>
         if !((s ++ b).all (fun p => wfB p.cols.length p.samples)) then "bad-op" else
-        out W.tprof (fetch md nz s b)),
+        match fetch md nz s b with
+        | .ok r => "ok " ++ Wr.render (W.tprof r ++ Wr.bool (fetchTie nz s b))
+        | .err _ => "err"
+        | .panic _ => "panic"),
   -- figures of a report: for nodes 0..k-1 flat and cum of column i, then the total
   ("c07.report", fun ts =>
     match Rd.run (do let i ← Rd.nat; let p ← R.prof; let tbl ← Rd.list (Rd.list Rd.nat); let k ← Rd.nat
